@@ -183,7 +183,10 @@ class TaggedStr(str):
 
 
 OPS = {"norm": do_norm, "equiv": do_equiv, "find": do_find}
-CASE_SECONDS = 60
+CASE_SECONDS = 20
+SLOW_AFTER = 3          # after this many timeouts the remaining cases get SHORT_SECONDS each
+SHORT_SECONDS = 3
+timeouts = 0
 
 
 class CaseTimeout(BaseException):
@@ -200,12 +203,14 @@ for line in sys.stdin:
     line = line.strip()
     if line:
         c = json.loads(line)
-        signal.alarm(CASE_SECONDS)
+        limit = CASE_SECONDS if timeouts < SLOW_AFTER else SHORT_SECONDS
+        signal.alarm(limit)
         try:
             r = OPS[c["op"]](c)
         except CaseTimeout:
+            timeouts += 1
             # the equivalence test did not return within the limit: reported as a failure of the test
-            r = {"exc": "Timeout", "where": "harness", "msg": "no result within %d s" % CASE_SECONDS}
+            r = {"exc": "Timeout", "where": "harness", "msg": "no result within %d s" % limit}
             if c["op"] == "norm":
                 r = {"valid": True, "parse": r}
         finally:
